@@ -114,3 +114,15 @@ Definition run_sphere_as_dipole (f : fieldT) (mu0 : float) (o : fvec) (d : float
   fflat (@bhjm_dipole FNum f mu0 o (@sphere_moment FNum mu0 d p)).
 Definition run_cyl_JM (f : fieldT) (mu0 : float) (o : fvec) (d h : float) (p : fvec) : list float :=
   fflat (@cyl_JM_row FNum mu0 f (o, p, (d, h))).
+
+(* the full-angle shortcut with the J/M branch of BHJM_magnet_cylinder, one row, on binary64 *)
+Definition run_full_segment_JM (f : fieldT) (mu0 : float) (o : fvec) (r1 r2 h phi1 phi2 : float) (p : fvec) : list float :=
+  fflat (@full_cylinder_spec FNum (@cyl_JM_row FNum mu0) f (o, p, (r1, r2, h, phi1, phi2))).
+
+(* a ring magnet r1 = 0.8205, r2 = 1.222, h = 1.86, axial polarization, observer in the bore one ulp below the
+   plane of the bottom face (local coordinates as BHJM_cylinder_segment_internal receives them for
+   position (0,0,-0.1635) and observer z = -0.1635 - 0.93) *)
+Definition bore_witness : @srow FNum :=
+  ((0x1.c5f52a2fdcc89p-3, 0x1.617fa3e939600p-2, (-0x1.dc28f5c28f5c4p-1)), (0, 0, 1),
+   (0x1.a4189374bc6a8p-1, 0x1.38d4fdf3b645ap+0, 0x1.dc28f5c28f5c3p+0, 0, 0x1.68p+8))%float.
+Definition mu0_f : float := 0x1.515370f8e0229p-20%float.
